@@ -78,7 +78,9 @@ class PickupManager:
         """
         manager = cls(optic)
         for pickup_data in data:
-            manager.add(**pickup_data)
+            # restore the pickup without applying it: the saved prescription
+            # is the state of the lens (as for solves)
+            manager.pickups.append(Pickup.from_dict(optic, pickup_data))
         return manager
 
 
